@@ -89,5 +89,8 @@ class KnownFindings(object):
                 continue
             for k in e.get("keys", [e.get("key")] if e.get("key") else []):
                 if k.get("file") == finding.file and k.get("construct") == finding.construct:
+                    # coarse constructs (E7) are tied to the function they were confirmed in
+                    if k.get("strict_function") and k.get("function") != finding.function:
+                        continue
                     return e
         return None
